@@ -202,6 +202,26 @@ void profile_blockedit(const json& plan, Ctx& ctx) {
 			ctx.sig.tag("del"); ctx.sig.i(idx); ctx.sig.i(nb);
 			ctx.nontrivial = true;
 		}
+		else if (op == "PrettySort") {
+			// the library's own reorder entry point (what a save with sortBlocks runs), with loose blocks wherever they are
+			if (nb < 2 || nif->HasUnknown()) { stepNo++; continue; }
+			nif->PrettySortBlocks();
+			std::vector<NiObject*> now;
+			std::set<NiObject*> before(m.order.begin(), m.order.end()), seenNow;
+			bool perm = hdr.GetNumBlocks() == nb;
+			for (uint32_t i = 0; i < hdr.GetNumBlocks(); i++) {
+				auto o = hdr.GetBlock<NiObject>(i);
+				now.push_back(o);
+				if (!o || !before.count(o) || !seenNow.insert(o).second) perm = false;
+			}
+			if (!perm) ctx.viol("graph:sort-not-a-permutation", where + ": after PrettySortBlocks the block list is not a permutation of the blocks it had (" + std::to_string(hdr.GetNumBlocks()) + " slots, " + std::to_string(seenNow.size()) + " distinct blocks of the " + std::to_string(nb) + " before)");
+			// (what the sort does to child lists and which references it follows is C04's subject; here the block list has to stay a
+			// permutation, and the model goes on from what the sort left)
+			m = captureModel(*nif);
+			ctx.probe("op_pretty_sort");
+			ctx.sig.tag("sort");
+			ctx.nontrivial = true;
+		}
 		else if (op == "SetBlockOrder") {
 			if (nb < 3) { stepNo++; continue; }
 			std::vector<uint32_t> order(nb);
